@@ -27,9 +27,14 @@ FN_CRTP = 3
 class FakeSocket:
     """In-memory socket.  recv(n) hands out the stream from the current position up to the next
     cut (at most n bytes): the cut set is the set of fragment boundaries.  Nothing is delivered
-    before `gate` is opened; at the end of the stream recv blocks for ever."""
+    before `gate` is opened; at the end of the stream recv blocks for ever (or runs into the
+    timeout the code has set).  Every write (send / sendall) is ONE scheduling point and puts its
+    bytes on the wire atomically, in the order the scheduler grants the writes: `tx` is the byte
+    stream the peer receives.  The whole socket API a transport may reasonably use is there
+    (send, sendall, recv, recv_into, settimeout, setblocking, setsockopt, shutdown, close, ...):
+    a changed tree must get a verdict, not an AttributeError."""
 
-    def __init__(self, stream, cuts, rec, limit=None, gaps=None):
+    def __init__(self, stream, cuts, rec, limit=None, gaps=None, wmax=None):
         # gaps: {stream position: seconds} -- after the fragment that ends at that position the
         # peer pauses (virtual time), so polling receivers run into their timeouts in between
         self.gaps = {int(k): float(v) for k, v in (gaps or {}).items()}
@@ -42,12 +47,70 @@ class FakeSocket:
         self.tx = bytearray()
         self.tx_by = []          # (thread name | None, bytes)
         self.rec = rec
+        self.timeout = None      # as set by settimeout (None = blocking)
+        self.wmax = wmax         # short writes: send() takes at most wmax bytes (None: everything;
+        #                          the registered scenarios use None, see `assumptions`)
+        self.closed = False
 
+    # ---- connection management (no-ops of a connected in-memory socket)
     def connect(self, addr):
         pass
 
+    def connect_ex(self, addr):
+        return 0
+
+    def bind(self, addr):
+        pass
+
+    def setsockopt(self, *a):
+        pass
+
+    def getsockopt(self, *a):
+        return 0
+
+    def settimeout(self, t):
+        self.timeout = None if t is None else float(t)
+
+    def gettimeout(self):
+        return self.timeout
+
+    def setblocking(self, flag):
+        self.timeout = None if flag else 0.0
+
+    def getblocking(self):
+        return self.timeout != 0.0
+
+    def fileno(self):
+        return 3
+
+    def getpeername(self):
+        return ('h', 1)
+
+    def getsockname(self):
+        return ('127.0.0.1', 40000)
+
+    def __enter__(self):
+        return self
+
+    def __exit__(self, *a):
+        self.close()
+
+    def shutdown(self, how):
+        pass
+
+    def close(self):
+        self.closed = True
+
+    def detach(self):
+        return 3
+
+    # ---- receiving
     def _ready(self):
         return self.gate and self.pos < self.limit
+
+    def _arrived(self):
+        s = vcore.CUR
+        return self._ready() and (s.now if s is not None else 0.0) >= self.not_before
 
     def _take(self, n):
         i = bisect.bisect_right(self.cuts, self.pos)
@@ -60,44 +123,113 @@ class FakeSocket:
         self.rec.ev.append({'e': 'recv', 'n': n, 'k': k})
         return data
 
-    def recv(self, n):
+    def recv(self, n, flags=0):
         s = vcore.CUR
         now = s.now if s is not None else 0.0
+        n = int(n)
+
+        def late():
+            # a deadline was reached: the data has arrived by then, or the code's own timeout fired
+            if self._arrived():
+                return self._take(n)
+            raise TimeoutError('timed out')
+        if self.timeout is not None and self.timeout <= 0.0 and not self._arrived():
+            raise BlockingIOError(11, 'Resource temporarily unavailable')
+        deadlines = []
         if self._ready() and self.not_before > now:
             # the peer is pausing: the data arrives at not_before (a timed wait for the scheduler)
-            return vthreading._do(vcore.Op('sock.recv', self, lambda: self._ready() and vcore.CUR.now >= self.not_before,
-                                           lambda: self._take(n), deadline=self.not_before,
-                                           timeout_result=lambda: self._take(n)))
-        return vthreading._do(vcore.Op('sock.recv', self, self._ready, lambda: self._take(n)))
+            deadlines.append(self.not_before)
+        if self.timeout is not None:
+            deadlines.append(now + self.timeout)
+        if deadlines:
+            return vthreading._do(vcore.Op('sock.recv', self, self._arrived, lambda: self._take(n),
+                                           deadline=min(deadlines), timeout_result=late))
+        return vthreading._do(vcore.Op('sock.recv', self, self._arrived, lambda: self._take(n)))
 
-    def send(self, data):
+    def recv_into(self, buf, nbytes=0, flags=0):
+        view = memoryview(buf).cast('B')
+        n = int(nbytes) or len(view)
+        data = self.recv(min(n, len(view)), flags)
+        view[:len(data)] = data
+        return len(data)
+
+    def recvfrom(self, n, flags=0):
+        return self.recv(n, flags), ('h', 1)
+
+    def recvfrom_into(self, buf, nbytes=0, flags=0):
+        return self.recv_into(buf, nbytes, flags), ('h', 1)
+
+    def makefile(self, mode='r', *a, **k):
+        import io
+        sock = self
+
+        class _Raw(io.RawIOBase):
+            def readable(self):
+                return True
+
+            def writable(self):
+                return True
+
+            def readinto(self, b):
+                return sock.recv_into(b)
+
+            def write(self, b):
+                return sock.send(b)
+        return io.BufferedRWPair(_Raw(), _Raw()) if 'b' in mode else io.TextIOWrapper(io.BufferedRWPair(_Raw(), _Raw()))
+
+    # ---- sending: one scheduling point per write
+    def _write(self, data):
         s = vcore.CUR
         me = s.current() if s is not None else None
+        data = bytes(data)
 
         def fire():
-            self.tx += bytes(data)
-            self.tx_by.append((me.name if me is not None else None, bytes(data)))
+            self.tx += data
+            self.tx_by.append((me.name if me is not None else None, data))
+            if me is not None:       # (set-up code -- connect() -- is reported by the `connect` event)
+                self.rec.ev.append({'e': 'wr', 's': self.rec.sender_id(me.name), 'b': [int(x) for x in data]})
             return len(data)
         return vthreading._do(vcore.Op('sock.send', self, lambda: True, fire))
 
-    def shutdown(self, how):
-        pass
+    def send(self, data, flags=0):
+        data = bytes(data)
+        if self.wmax is not None and len(data) > self.wmax:
+            data = data[:max(1, self.wmax)]
+        return self._write(data)
 
-    def close(self):
-        pass
+    def sendall(self, data, flags=0):
+        data = bytes(data)
+        if self.wmax is None:
+            self._write(data)
+        else:
+            while data:
+                k = self._write(data[:max(1, self.wmax)])
+                data = data[k:]
+        return None
+
+    def sendto(self, data, *a):
+        return self.send(data)
+
+    def sendmsg(self, buffers, *a):
+        return self.send(b''.join(bytes(x) for x in buffers))
 
 
 class FakeSocketModule:
-    """Stands in for the `socket` module inside cflib.cpx.transports (module boundary)."""
-    AF_INET = 2
-    SOCK_STREAM = 1
-    SHUT_WR = 1
+    """Stands in for the `socket` module inside cflib.cpx.transports (module boundary).  Sockets
+    are the scripted ones; every other name (constants, exception classes) is the real module's."""
 
     def __init__(self):
         self.next = None
 
     def socket(self, *a, **k):
         return self.next
+
+    def create_connection(self, *a, **k):
+        return self.next
+
+    def __getattr__(self, name):
+        import socket as _real
+        return getattr(_real, name)
 
 
 FAKE = FakeSocketModule()
@@ -108,6 +240,10 @@ class Recorder:
         self.ev = []
         self.registered = {}      # receiver id -> function
         self.names = {}           # virtual thread name -> receiver id
+        self.senders = {}         # virtual thread name -> sender id
+
+    def sender_id(self, name):
+        return self.senders.get(name, -1)
 
     def receiver_id(self):
         s = vcore.CUR
@@ -369,15 +505,19 @@ def run_tcp(sc):
     from ..vsched import vqueue
     rec = Recorder()
     rng = random.Random(sc['sched'])
-    sock = FakeSocket(sc['stream'], sc['cuts'], rec, sc.get('limit'), sc.get('gaps'))
+    sock = FakeSocket(sc['stream'], sc['cuts'], rec, sc.get('limit'), sc.get('gaps'), wmax=sc.get('wmax'))
     FAKE.next = sock
     REC = rec
     errors = []
     try:
         with vsched.scheduler(_policy(sc, rng), max_steps=400000) as s:
+            connected = True
             if sc.get('drv', 'tcp') == 'tcp':
                 drv = td.TcpDriver()
-                drv.connect('tcp://h:1', None, errors.append)
+                try:
+                    drv.connect('tcp://h:1', None, errors.append)
+                except Exception:          # the code under test could not connect: judged, not a crash
+                    connected = False
             else:
                 # SerialDriver.connect needs pyserial and a device; its tunnel code (receive
                 # thread, send_packet, receive_packet) is put on the scripted transport by hand
@@ -389,6 +529,18 @@ def run_tcp(sc):
                 drv.cpx.sendPacket(CPXPacket(destination=CPXTarget.STM32, function=CPXFunction.SYSTEM,
                                              data=[0x21, 0x01]))
             rec.ev.append({'e': 'connect', 'b': [int(b) for b in sock.tx]})
+            senders = senders_of(sc)
+            if not connected:
+                # nothing can be sent or received: every scripted call fails
+                for sd_ in senders:
+                    for op in sd_['ops']:
+                        if op[0] != 'again':
+                            rec.ev.append({'e': 'sendb', 's': sd_['id'], 'it': item_of(op), 'fresh': 1})
+                            rec.ev.append({'e': 'sende', 's': sd_['id'], 'ok': 0, 'same': 1})
+                rec.ev.append({'e': 'start'})
+                fin = {'alive': False, 'compact': False, 'consumed': sock.pos, 'blocked': True, 'run': 'noconnect',
+                       'link_errors': len(errors)}
+                return rec.ev, fin
             router = drv.cpx._router
             rthreads = []
 
@@ -413,32 +565,83 @@ def run_tcp(sc):
                         rec.ev.append({'e': 'crtp', 'c': [int(pk.port), int(pk.channel),
                                                           [int(b) for b in pk.data]]})
 
-            def user_tx():
-                for (port, chan, data) in sc['sends']:
-                    pk = CRTPPacket()
-                    pk.set_header(port, chan)
-                    pk.data = bytes(data)
-                    n0 = len(sock.tx_by)
-                    drv.send_packet(pk)
-                    me = s.current().name
-                    b = b''.join(x for (who, x) in sock.tx_by[n0:] if who == me)
-                    rec.ev.append({'e': 'send', 'c': [port, chan, list(data)], 'b': [int(x) for x in b]})
+            # sender threads: the library thread(s) using send_packet, applications using CPX.sendPacket
+            # on the same link.  `order` (spec -> code replay) fixes whose call comes next.
+            order = sc.get('order')
+            turn = [0]
+
+            def my_turn(sid):
+                if order is None:
+                    return
+                vthreading._do(vcore.Op('turn.wait', turn, lambda: turn[0] >= len(order) or order[turn[0]] == sid,
+                                        lambda: None))
+
+            def sender(sd_):
+                sid = sd_['id']
+                obj, built = None, None
+                for op in sd_['ops']:
+                    if op[0] == 'again' and obj is None:
+                        continue
+                    my_turn(sid)
+                    if op[0] == 'app':
+                        (_k, dst, f, last, data) = op
+                        q = CPXPacket(function=CPXFunction(f), destination=CPXTarget(dst), data=bytearray(data))
+                        q.lastPacket = bool(last)
+                        it = item_of(op)
+                        rec.ev.append({'e': 'sendb', 's': sid, 'it': it, 'fresh': 1})
+                        ok = 1
+                        try:
+                            drv.cpx.sendPacket(q)
+                        except Exception:
+                            ok = 0
+                        try:
+                            same = out_of(q) == it[1] and q.version == 0
+                        except Exception:
+                            same = False
+                    else:
+                        fresh = 1 if op[0] == 'crtp' else 0
+                        if fresh:
+                            # an object the caller builds once; 'again' hands the very same object over
+                            # once more (cached set-point, retry of an unanswered request)
+                            (_k, port, chan, data) = op
+                            obj = CRTPPacket()
+                            obj.set_header(port, chan)
+                            obj.data = bytes(data)
+                            built = [port, chan, [int(x) for x in data]]
+                        rec.ev.append({'e': 'sendb', 's': sid, 'it': [0, built], 'fresh': fresh})
+                        ok = 1
+                        try:
+                            drv.send_packet(obj)
+                        except Exception:
+                            ok = 0
+                        try:
+                            same = [int(obj.port), int(obj.channel), [int(x) for x in obj.data]] == built
+                        except Exception:
+                            same = False
+                    rec.ev.append({'e': 'sende', 's': sid, 'ok': ok, 'same': 1 if same else 0})
+                    turn[0] += 1
 
             urx = s.spawn(user_rx, 'urx')
             ids = [0] + [r for (r, _f, _t) in sc['rcv']]
-            utx = None
+            txs = []
+
+            def start_senders():
+                for sd_ in senders:
+                    th = s.spawn(sender, 'utx%d' % sd_['id'], (sd_,))
+                    rec.senders[th.name] = sd_['id']
+                    txs.append(th)
             if sc.get('tx_early'):
-                utx = s.spawn(user_tx, 'utx')
+                start_senders()
             s.run(until=lambda: all(r in rec.registered for r in ids), horizon=5.0)
             rec.ev.append({'e': 'start'})
             sock.gate = True
-            if utx is None:
-                utx = s.spawn(user_tx, 'utx')
+            if not txs:
+                start_senders()
             rrec = router._vs_rec
             trec = drv._thread._vs_rec
 
             def quiet():
-                if not utx.finished:
+                if not all(t.finished for t in txs):
                     return False
                 if not rrec.finished and (_pending(rrec)[0] != 'sock.recv' or sock._ready()):
                     return False
@@ -456,6 +659,25 @@ def run_tcp(sc):
     fin = {'alive': alive, 'compact': False, 'consumed': sock.pos, 'blocked': True, 'run': res,
            'link_errors': len(errors)}
     return rec.ev, fin
+
+
+def senders_of(sc):
+    """The sender threads of a tcp job: [{'id', 'ops'}], op = ['crtp', port, chan, data] (a packet
+    object built by the caller), ['again'] (the same object handed to send_packet once more),
+    ['app', dst, function, last, data] (a CPX packet through CPX.sendPacket).  Old-style jobs
+    (`sends` = CRTP packets of one thread) are one sender."""
+    if sc.get('senders') is not None:
+        return [{'id': int(d['id']), 'ops': [list(o) for o in d['ops']]} for d in sc['senders']]
+    ops = [['crtp', p, c, list(d)] for (p, c, d) in sc.get('sends', [])]
+    return [{'id': 1, 'ops': ops}] if ops else []
+
+
+def item_of(op):
+    """representation conversion: a sender's op -> the item of CpxProps (5)"""
+    if op[0] == 'crtp':
+        return [0, [int(op[1]), int(op[2]), [int(x) for x in op[3]]]]
+    (_k, dst, f, last, data) = op
+    return [1, [1, 3, int(dst), int(f), int(last), [int(x) for x in data]]]
 
 
 # --------------------------------------------------------------------------- in-memory mutants
@@ -595,6 +817,19 @@ class mutant:
                 data += packet.wireData
                 t._socket.send(data)
             self._set(tr.SocketTransport, 'writePacket', wp)
+        elif name == 'write_split':            # length prefix and wire data written with two calls
+            import cflib.cpx.transports as tr
+
+            def wp2(t, packet):
+                t._socket.send(struct.pack('H', packet.length + 2))
+                t._socket.send(bytes(packet.wireData))
+            self._set(tr.SocketTransport, 'writePacket', wp2)
+        elif name == 'header_in_place':        # send_packet builds the CPX payload inside the caller's packet
+            def sp2(d, pk):
+                pk.data.insert(0, pk.header)
+                d.cpx.sendPacket(P(destination=cpx.CPXTarget.STM32, function=cpx.CPXFunction.CRTP, data=pk.data))
+            self._set(td.TcpDriver, 'send_packet', sp2)
+            self._set(sd.SerialDriver, 'send_packet', sp2)
         else:
             raise common.MachineryError('unknown mutant %s' % name)
         return self
@@ -618,6 +853,7 @@ MUTANTS = {
     'queue_dropped_on_timeout': ('router', 'tcp'),
     'down_payload_shift': ('tcp',), 'down_drop_short': ('tcp',),
     'up_no_header': ('tcp',), 'up_len_plus4': ('tcp', 'loop'),
+    'write_split': ('tcp',), 'header_in_place': ('tcp',),
 }
 
 
@@ -633,13 +869,13 @@ def run_job(job):
     pkts = [list(p) for p in job.get('pkts', [])]
     with mutant(job.get('mutant')):
         if kind == 'codec':
-            return {'mode': 'codec', 'src': 'spec', 'pkts': [], 'stream': [], 'rcv': [],
+            return {'mode': 'codec', 'src': 'spec', 'pkts': [], 'stream': [], 'rcv': [], 'snd': [],
                     'ev': run_codec(pkts), 'fin': {'alive': True, 'compact': False, 'consumed': 0}}
         if job.get('src', 'spec') == 'code':
             stream = loopback_stream(pkts)
         else:
             stream = enc_stream(pkts)
-        base = {'src': job.get('src', 'spec'), 'pkts': pkts, 'stream': stream}
+        base = {'src': job.get('src', 'spec'), 'pkts': pkts, 'stream': stream, 'snd': []}
         if kind == 'tcompact':      # every cut set of the stream, one "run" event each
             runs = []
             fin = None
@@ -657,7 +893,8 @@ def run_job(job):
             return dict(base, mode='router', rcv=[ent[0] for ent in job['rcv']], ev=ev, fin=fin)
         if kind == 'tcp':
             ev, fin = run_tcp(sc)
-            return dict(base, mode='tcp', rcv=[0] + [r for (r, _f, _t) in job['rcv']], ev=ev, fin=fin)
+            return dict(base, mode='tcp', rcv=[0] + [r for (r, _f, _t) in job['rcv']],
+                        snd=[d['id'] for d in senders_of(job)], ev=ev, fin=fin)
     raise common.MachineryError('unknown job kind %s' % kind)
 
 
@@ -687,6 +924,37 @@ def compositions(lmax, maxpk=3):
 def header_combos():
     return [(s, d, f, l, v) for s in range(1, 5) for d in range(1, 5) for f in FUNCTIONS
             for l in (0, 1) for v in range(4)]
+
+
+APP_FNS = [2, 4, 5, 14, 15]      # functions an application sender may own (SYSTEM is connect()'s, CRTP the driver's)
+
+
+def gen_senders(rng, nthreads, maxops, lens=None, again_p=0.3):
+    """Sender threads of one link.  Each owns some CRTP ports (the library thread, a commander
+    loop, a parameter thread ... use different ports) or a CPX function of its own (an application
+    talking to the GAP8/ESP32 through CPX.sendPacket); a CRTP sender hands some packet objects over
+    more than once (cached set-point, retry of an unanswered request)."""
+    ports = list(range(16))
+    rng.shuffle(ports)
+    fns = list(APP_FNS)
+    rng.shuffle(fns)
+    lens = lens or list(range(31))
+    out = []
+    for i in range(nthreads):
+        own_ports = [ports.pop() for _ in range(rng.randint(1, 3))]
+        own_fn = fns.pop() if (i > 0 and rng.random() < 0.6) else None
+        ops = []
+        for _ in range(rng.randint(1, maxops)):
+            if own_fn is not None and rng.random() < 0.5:
+                ops.append(['app', rng.choice((1, 2, 4)), own_fn, rng.randint(0, 1),
+                            [rng.randrange(256) for _ in range(rng.choice(lens))]])
+            else:
+                ops.append(['crtp', rng.choice(own_ports), rng.randrange(4),
+                            [rng.choice((0, 255, rng.randrange(256))) for _ in range(rng.choice(lens))]])
+                while rng.random() < again_p and len(ops) < maxops + 2:
+                    ops.append(['again'])
+        out.append({'id': i + 1, 'ops': ops})
+    return out
 
 
 def jobs_codec(tier, rng):
@@ -749,12 +1017,11 @@ def jobs_exhaustive(tier, rng):
                 pk.append(rand_packet(rng, n, [f]))
             if rng.random() < 0.2:
                 pk[rng.randrange(len(pk))][4] = 2
-            sends = [(rng.choice((0, 2, 13, 15)), rng.randrange(4), [rng.randrange(256) for _ in range(rng.choice((0, 1, 3, 30)))])
-                     for _ in range(rng.randrange(3))]
+            senders = gen_senders(rng, rng.choice((0, 1, 1, 2, 2, 3)), 2, lens=(0, 1, 3, 30))
             rcv = [(1, 2, None)] if rng.random() < 0.5 else []
             L = 4 * len(lens) + sum(lens)
             for cuts in all_cut_sets(L):
-                jobs.append({'kind': 'tcp', 'pkts': pk, 'cuts': cuts, 'rcv': rcv, 'drv': drv, 'sends': sends,
+                jobs.append({'kind': 'tcp', 'pkts': pk, 'cuts': cuts, 'rcv': rcv, 'drv': drv, 'senders': senders,
                              'sched': rng.randrange(1 << 30), 'wait': rng.choice((-1, 0.05)),
                              'tx_early': rng.random() < 0.5})
     return jobs
@@ -822,13 +1089,20 @@ def jobs_random(tier, rng):
         if rng.random() < 0.3:
             pk[rng.randrange(len(pk))][4] = rng.randint(1, 3)
         L = sum(4 + len(p[5]) for p in pk)
-        sends = [(rng.randrange(16), rng.randrange(4), [rng.randrange(256) for _ in range(rng.randrange(31))])
-                 for _ in range(rng.randrange(6))]
+        senders = gen_senders(rng, rng.choice((0, 1, 2, 2, 3, 4)), 6)
         jobs.append({'kind': 'tcp', 'pkts': pk, 'cuts': rand_cuts(rng, L), 'rcv': [(1, 2, None)] if k % 2 else [],
-                     'drv': 'tcp' if k % 3 else 'serial', 'sends': sends, 'sched': rng.randrange(1 << 30),
+                     'drv': 'tcp' if k % 3 else 'serial', 'senders': senders, 'sched': rng.randrange(1 << 30),
                      'wait': rng.choice((-1, 0.05)), 'tx_early': rng.random() < 0.5, 'long': True,
                      'policy': ('random', 'router_first', 'router_last')[k % 3],
                      'gaps': rand_gaps(rng, pk) if k % 2 == 0 else {}})
+    # the link used by several threads at once (downlink idle or a few packets): many schedules
+    for k in range(2 * n if tier == 'quick' else n):
+        pk = [rand_packet(rng, rng.randrange(1, 8), [FN_CRTP]) for _ in range(rng.randrange(3))]
+        L = sum(4 + len(p[5]) for p in pk)
+        jobs.append({'kind': 'tcp', 'pkts': pk, 'cuts': rand_cuts(rng, L), 'rcv': [],
+                     'drv': 'tcp' if k % 4 else 'serial', 'senders': gen_senders(rng, rng.choice((1, 2, 2, 3)), 5),
+                     'sched': rng.randrange(1 << 30), 'wait': -1, 'tx_early': k % 2 == 0, 'long': True,
+                     'policy': ('random', 'random', 'router_last')[k % 3]})
     # the largest payload the 16-bit length prefix can carry, and its neighbour
     for n in ([65533] if tier == 'quick' else [65532, 65533]):
         pk = [rand_packet(rng, 2, [1]), rand_packet(rng, n, [FN_CRTP + 2]), rand_packet(rng, 0, [15])]
@@ -866,10 +1140,9 @@ def mutant_battery(tier, rng):
         pk = [rand_packet(rng, rng.choice((1, 1, 2, 5, 31)), [FN_CRTP]) for _ in range(rng.randint(3, 8))]
         pk.insert(rng.randrange(len(pk)), rand_packet(rng, 3, [2]))
         L = sum(4 + len(p[5]) for p in pk)
-        sends = [(rng.randrange(16), rng.randrange(4), [rng.randrange(256) for _ in range(rng.choice((0, 1, 30)))])
-                 for _ in range(3)]
+        senders = gen_senders(rng, 1 + k % 3, 4, lens=(0, 1, 30), again_p=0.5)
         bat['tcp'].append({'kind': 'tcp', 'pkts': pk, 'cuts': rand_cuts(rng, L), 'rcv': [(1, 2, None)],
-                           'drv': ('tcp', 'serial')[k % 2], 'sends': sends, 'sched': rng.randrange(1 << 30),
+                           'drv': ('tcp', 'serial')[k % 2], 'senders': senders, 'sched': rng.randrange(1 << 30),
                            'wait': -1, 'tx_early': bool(k % 3),
                            'gaps': rand_gaps(rng, pk) if k % 2 == 0 else {}})
     # fixed: the peer pauses after EVERY packet for longer than any polling timeout
@@ -906,7 +1179,7 @@ def job_from_behaviour(beh, seed):
     if last['phase'] != 'run':
         return None
     mode = last['mode']
-    regs, cuts, prev = [], [], beh[0][1]
+    regs, cuts, order, prev = [], [], [], beh[0][1]
     for _label, st in beh[1:]:
         if st['rfn'] != prev['rfn']:
             for (r, f) in _rfn_items(st['rfn']):
@@ -914,9 +1187,22 @@ def job_from_behaviour(beh, seed):
                     regs.append((r, f, None))
         if st['pos'] != prev['pos']:
             cuts.append(st['pos'])
+        if prev['tx'] and st['tx'] != prev['tx']:
+            # a Write(s): the sender whose pc moved; the calls are replayed in the order of their writes
+            order += [sid for (sid, pc) in _rfn_items(st['spc']) if dict(_rfn_items(prev['spc']))[sid] != pc]
         prev = st
+    ops = {}
+    for (sid, it, fresh) in last['sent']:
+        if not fresh:
+            op = ['again']
+        elif it[0] == 0:
+            op = ['crtp', it[1][0], it[1][1], list(it[1][2])]
+        else:
+            op = ['app', it[1][2], it[1][3], it[1][4], list(it[1][5])]
+        ops.setdefault(sid, []).append(op)
+    senders = [{'id': sid, 'ops': ops[sid][:order.count(sid)]} for sid in sorted(ops) if order.count(sid)]
     job = {'kind': mode, 'pkts': last['pkts'], 'cuts': cuts, 'limit': last['pos'], 'rcv': regs,
-           'sched': seed, 'sends': [(c[0], c[1], c[2]) for c in last['sent']], 'drv': 'tcp', 'wait': -1,
+           'sched': seed, 'senders': senders, 'order': order, 'drv': 'tcp', 'wait': -1,
            'tx_early': False}
     need_more = last['rd'] in ('len', 'body') and len(last['buf']) < last['need']
     rf = {f for (_r, f) in _rfn_items(last['rfn']) if f != 0}
@@ -933,7 +1219,7 @@ def compare_with_spec(trace, last, quiescent):
     crtps = [e['c'] for e in ev if e['e'] == 'crtp']
     tx = []
     for e in ev:
-        if e['e'] in ('connect', 'send'):
+        if e['e'] in ('connect', 'wr'):
             tx += e['b']
     handed, spec_handed = {}, {}
     for e in ev:
@@ -977,13 +1263,21 @@ def judge(out, traces, label):
     return bad, drift
 
 
-def signature(job, trace, clause):
-    """clause + witness class: layer, driver, one packet or several, cut or uncut stream"""
+def signature(job, trace, clause, at=None):
+    """clause + witness class: layer, driver, one packet or several, cut or uncut stream; for the
+    uplink clauses the downlink stream is irrelevant: one sender thread or several had called by the
+    time of the rejection, and (content clause only) whether a packet object had been handed over
+    more than once by then"""
     n = len(job.get('pkts', []))
     cuts = job.get('cuts')
-    return '%s/%s%s/%s/%s' % (clause, job['kind'], ':' + job['drv'] if job['kind'] == 'tcp' else '',
-                              'one' if n <= 1 else 'many',
-                              'cut' if cuts else 'whole')
+    head = '%s/%s%s' % (clause, job['kind'], ':' + job['drv'] if job['kind'] == 'tcp' else '')
+    if clause.startswith('TunnelUp'):
+        calls = [e for e in trace['ev'][:at] if e['e'] == 'sendb']
+        who = 'one-sender' if len({e['s'] for e in calls}) <= 1 else 'concurrent-senders'
+        if clause == 'TunnelUpFraming':
+            return '%s/%s' % (head, who)
+        return '%s/%s/%s' % (head, who, 'resent-object' if any(not e['fresh'] for e in calls) else 'fresh-objects')
+    return '%s/%s/%s' % (head, 'one' if n <= 1 else 'many', 'cut' if cuts else 'whole')
 
 
 def _brief(t, at):
@@ -1012,7 +1306,13 @@ def main(tier, seed, replay=None):
         'the wire format the peer speaks is the firmware\'s (dst:3,src:3,last:1 | function:6,version:2; '
         '16-bit little-endian length prefix); streams built by the harness are checked against it by TLC',
         'max payload = 65533 (what the 16-bit prefix can carry); targets 1..4, the 7 CPXFunction values, versions 0..3',
-        'socket.send is assumed to take the whole buffer (the property quantifies over receive chunks only)',
+        'a socket write (send/sendall) takes the whole buffer and is atomic on the wire (the property quantifies '
+        'over receive chunks only; the scripted socket can do short writes -- wmax -- but no registered scenario '
+        'uses them); every write is a scheduling point, so writes of different threads interleave in any order',
+        'threads that send through one link own their CRTP ports / CPX functions (the peer attributes packets by '
+        'content); application senders do not use CPXFunction.SYSTEM (connect() does) or CRTP (the driver does)',
+        'a caller that hands the same CRTPPacket object to send_packet again has sent the packet it built again '
+        '(it never writes to the object in between)',
         'the TcpDriver/SerialDriver receive thread is the only receiver of the CRTP function',
         'SerialDriver: pyserial is absent, so its tunnel code (receive thread, send_packet, receive_packet) runs on '
         'the scripted TCP transport; UARTTransport framing is not exercised',
@@ -1023,19 +1323,21 @@ def main(tier, seed, replay=None):
         t = run_job(rp['job'])
         bad, _ = judge(out, [t], 'replay')
         for (i, clause, at) in bad:
-            out.violation(signature(rp['job'], t, clause), clause, _brief(t, at), {'job': rp['job']})
+            out.violation(signature(rp['job'], t, clause, at), clause, _brief(t, at), {'job': rp['job']})
         return out.finish()
 
     # 1. design spec: exhaustive checks; every bug configuration must be refuted
     from multiprocessing.pool import ThreadPool
     w = max(2, common.NCPU // 4)
     if tier == 'quick':
-        cfgs = ['MC_Cpx_codec.cfg', 'MC_Cpx_quick.cfg', 'MC_Cpx_tcp_quick.cfg', 'MC_Cpx_long.cfg', 'MC_Cpx_late.cfg']
+        cfgs = ['MC_Cpx_codec.cfg', 'MC_Cpx_quick.cfg', 'MC_Cpx_tcp_quick.cfg', 'MC_Cpx_send_quick.cfg',
+                'MC_Cpx_long.cfg', 'MC_Cpx_late.cfg']
     else:
         cfgs = ['MC_Cpx_codec.cfg', 'MC_Cpx_thorough.cfg', 'MC_Cpx_tcp_thorough.cfg', 'MC_Cpx_long.cfg',
-                'MC_Cpx_late.cfg', 'MC_Cpx_quick.cfg', 'MC_Cpx_tcp_quick.cfg']
+                'MC_Cpx_late.cfg', 'MC_Cpx_quick.cfg', 'MC_Cpx_tcp_quick.cfg', 'MC_Cpx_send_quick.cfg',
+                'MC_Cpx_send_thorough.cfg']
     bugs = ['single_recv', 'be_len', 'route_by_dst', 'no_version_check', 'swap_targets', 'lifo', 'tx_no_header',
-            'late_drop']
+            'late_drop', 'split_write', 'inplace_header']
     if tier == 'quick':
         cfgs.remove('MC_Cpx_late.cfg')
     with ThreadPool(6) as tp:
@@ -1079,12 +1381,12 @@ def main(tier, seed, replay=None):
         out.conformance['first_drift'] = {'job': {k: v for k, v in all_jobs[drift[0][0]].items() if k != 'pkts'},
                                           'event_index': drift[0][1]}
     for (i, clause, at) in bad:
-        out.violation(signature(all_jobs[i], all_traces[i], clause), clause, _brief(all_traces[i], at),
+        out.violation(signature(all_jobs[i], all_traces[i], clause, at), clause, _brief(all_traces[i], at),
                       {'job': all_jobs[i]})
     nruns = sum(len(t['ev']) if t['fin'].get('compact') else 1 for t in all_traces)
     ncodec = sum(len(t['ev']) for t in all_traces if t['mode'] == 'codec')
     out.evaluations = nruns + ncodec
-    out.distinct = len({json.dumps([j.get('kind'), j.get('pkts'), j.get('cuts'), j.get('rcv'), j.get('sends')])
+    out.distinct = len({json.dumps([j.get('kind'), j.get('pkts'), j.get('cuts'), j.get('rcv'), j.get('sends'), j.get('senders')])
                         for j in all_jobs})
     out.exhaustive = True
     out.rule = ('execution = (packet sequence, cut set, receivers, CRTP sends, schedule seed) on the real code; '
